@@ -19,7 +19,7 @@ theorem stepOK_all (w : World) (hw : WFW w) (op : Op) (hs : OpSafe w op) : StepO
   | inquire h => exact stepOK_inquire w hw h
   | read h n => exact stepOK_read w hw h n
   | write h bs => exact stepOK_write w hw h bs hs
-  | trunc h n => exact stepOK_trunc w hw h n hs
+  | trunc h n => exact stepOK_trunc w hw h n
   | endaccess h => exact stepOK_endaccess w hw h
   | deldd fi tag ref => exact stepOK_deldd w hw fi tag ref hs
 
